@@ -46,7 +46,7 @@ def run(ctx):
                 return
             p = os.path.join(scratch, "core%d.ndjson" % i)
             with open(p, "w") as f:
-                f.write(json.dumps(dict(hdr, els=dict((str(z), els[str(z)]) for z in b))) + "\n")
+                f.write(json.dumps(dict(hdr, els=dict((str(z), els[str(z)]) for z in (set(b) | ({1, 8, 26, 28, 92} if i == 0 else set()))))) + "\n")
                 for e in evs:
                     f.write(json.dumps(e) + "\n")
             nev += len(evs)
